@@ -22,7 +22,14 @@ import (
 type kase struct {
 	Src  string       `json:"src"`
 	Opts prog.Options `json:"opts"`
+	File *string      `json:"file,omitempty"` // file name given to the compiler (nil: p.star)
 }
+
+// fileNames: the name under which the program is compiled is data: it comes
+// back from Filename, in every position, backtrace and load position.
+var fileNames = []string{"", ".", "./p.star", "a/../p.star", "a//b.star", "a/./b.star", "/abs/p.star", "//lib/defs:rules.star", "https://example.com/x/../p.star?q=1",
+	"C:\\dir\\p.star", "dir\\..\\p.star", "p.star/", " p.star ", "p\x00q.star", "é日本.star", "\xff\xfe.star", "a\nb.star", strings.Repeat("n", 300) + ".star"}
+
 
 type obs struct {
 	trace     []string
@@ -159,6 +166,10 @@ func diffObs(a, b obs) string {
 
 // checkOne returns ("", false) if the source is statically invalid.
 func checkOne(src string, o prog.Options) (diff string, ran bool, nontrivial bool) {
+	return checkOneNamed("p.star", src, o)
+}
+
+func checkOneNamed(file, src string, o prog.Options) (diff string, ran bool, nontrivial bool) {
 	defer func() {
 		if r := recover(); r != nil {
 			diff = fmt.Sprintf("panic during compile/serialise: %v", r)
@@ -166,9 +177,12 @@ func checkOne(src string, o prog.Options) (diff string, ran bool, nontrivial boo
 		}
 	}()
 	env := prog.NewEnv()
-	_, p, err := starlark.SourceProgramOptions(o.FileOptions(), "p.star", src, env.Predeclared.Has)
+	_, p, err := starlark.SourceProgramOptions(o.FileOptions(), file, src, env.Predeclared.Has)
 	if err != nil {
 		return "", false, false
+	}
+	if p.Filename() != file {
+		return fmt.Sprintf("Filename() of the compiled program is %q, compiled as %q", p.Filename(), file), true, true
 	}
 	var b1 bytes.Buffer
 	if err := p.Write(&b1); err != nil {
@@ -177,6 +191,9 @@ func checkOne(src string, o prog.Options) (diff string, ran bool, nontrivial boo
 	p2, err := starlark.CompiledProgram(bytes.NewReader(b1.Bytes()))
 	if err != nil {
 		return "CompiledProgram failed on the bytes just written: " + err.Error(), true, true
+	}
+	if p2.Filename() != file {
+		return fmt.Sprintf("Filename() of the program read back is %q, compiled as %q", p2.Filename(), file), true, true
 	}
 	var b2 bytes.Buffer
 	if err := p2.Write(&b2); err != nil {
@@ -272,9 +289,25 @@ func worker(c *fw.Ctx) *fw.Stats {
 				}
 			}
 			report(f, o, diff)
+			if o == all {
+				for ni := range fileNames {
+					name := fileNames[ni]
+					diff, ran, _ := checkOneNamed(name, f, o)
+					if ran {
+						st.Evals++
+						st.Nontrivial++
+						st.Outcome("feature-under-file-name")
+					}
+					if diff != "" && nviol < 10 {
+						nviol++
+						st.Violate(fmt.Sprintf("file name %q: %s %.200s", name, o.String(), f), diff, kase{Src: f, Opts: o, File: &name})
+					}
+				}
+			}
 		}
 	}
 	if c.Shard == 0 {
+		st.Count("file_names", int64(len(fileNames)))
 		st.Levels = append(st.Levels, "feature")
 		st.Count("programs.feature", int64(len(features())))
 	}
@@ -338,6 +371,12 @@ func replay(c *fw.Ctx, raw json.RawMessage) []fw.Viol {
 	if err := json.Unmarshal(raw, &k); err != nil {
 		fw.Fatal("bad case: %v", err)
 	}
+	if k.File != nil {
+		if diff, _, _ := checkOneNamed(*k.File, k.Src, k.Opts); diff != "" {
+			return []fw.Viol{{Key: fmt.Sprintf("file name %q: %s %.200s", *k.File, k.Opts.String(), k.Src), What: diff}}
+		}
+		return nil
+	}
 	diff, _, _ := checkOne(k.Src, k.Opts)
 	if diff != "" {
 		key := k.Src
@@ -353,7 +392,7 @@ func init() {
 	fw.Register(&fw.Prop{
 		ID:    "C17",
 		Level: "exploration",
-		Rule: "every program of the feature profile (each constant kind, cells/free variables, keyword-only parameters, varargs/kwargs, docstrings, several loads, recursion flag, saturated position deltas) and of the C01 grammar profiles up to the completed size level; integer constants on both sides of every width boundary in both signs; after the comparison of the two executions the original and the reloaded program are written again (same bytes) and executed again, as is a program read from a *bytes.Buffer that was then overwritten and refilled: " +
+		Rule: "every program of the feature profile (also compiled under each of 18 file names: empty, dot segments, doubled slashes, labels, URLs, backslashes, NUL, non-UTF-8, 300 bytes; each constant kind, cells/free variables, keyword-only parameters, varargs/kwargs, docstrings, several loads, recursion flag, saturated position deltas) and of the C01 grammar profiles up to the completed size level; integer constants on both sides of every width boundary in both signs; after the comparison of the two executions the original and the reloaded program are written again (same bytes) and executed again, as is a program read from a *bytes.Buffer that was then overwritten and refilled: " +
 			"compile, Write, CompiledProgram, Write again (bytes must be equal), execute both programs in identical fresh environments and compare probe trace, globals, error text, call stack positions, backtrace, function metadata, load list and step count; " +
 			"non-trivial = programs with a side effect, an error or at least one function value",
 		Run: run, Worker: worker, Replay: replay,
